@@ -82,11 +82,11 @@ Definition bailout_of (n : string) : cmd :=
 Definition mk (n : string) (body : cmd) : prog := mkprog body (handlers_of n) (bailout_of n).
 
 (* ------------------------------------------------------------ fixes *)
-Record fixes := mkfix { fx5 : bool; fx9 : bool; fx10 : bool; fx11 : bool; fx2 : bool }.
+Record fixes := mkfix { fx5 : bool; fx9 : bool; fx10 : bool; fx11 : bool; fx2 : bool; fx12 : bool }.
 Definition faithful : fixes :=
   mkfix skip_ignores_stale_cconvert header_discards_old_icc decodeyuv_resets_lossless copy_critical_sets_precision_first
-        dest_forgets_newbuffer.
-Definition all_fixed : fixes := mkfix true true true true true.
+        dest_forgets_newbuffer decodeyuv_resets_marker_flags.
+Definition all_fixed : fixes := mkfix true true true true true true.
 
 (* ------------------------------------------------------------ common pieces *)
 Definition prologue : cmd :=
@@ -114,6 +114,10 @@ Definition get_soi : cmd :=
                                  else if String.eqb f "X_density" then EA "o_xDensity"
                                  else if String.eqb f "Y_density" then EA "o_yDensity"
                                  else if String.eqb f "density_unit" then EA "o_densityUnits"
+                                 (* get_soi clears them, the APP0 / APP14 markers of the stream set them *)
+                                 else if String.eqb f "saw_JFIF_marker" then EA "jfif"
+                                 else if String.eqb f "saw_Adobe_marker" then EA "adobe"
+                                 else if String.eqb f "Adobe_transform" then EA "adobe_tr"
                                  else EC 0)) get_soi_fields).
 Definition get_sof : cmd :=
   seq (map (fun f =>
@@ -340,7 +344,15 @@ Definition prog_decode_yuv (fx : fixes) (merged : bool) : prog :=
                (filter (fun f => negb (String.eqb f "out_color_space" || String.eqb f "dct_method" || String.eqb f "do_fancy_upsampling"))
                        decodeyuv_assigned_fields)) ;;
       (if fx10 fx then CSet (D "master->lossless") (EC 0) ;; CSet (D "arith_code") (EC 0) else CSkip) ;;
+      (if fx12 fx then CSet (D "saw_JFIF_marker") (EC 0) ;; CSet (D "saw_Adobe_marker") (EC 0) ;; CSet (D "Adobe_transform") (EC 0)
+       else CSkip) ;;
       read_header false false true ;;
+      (* default_decompress_parms: 3 components: JFIF marker seen -> YCbCr, else Adobe marker seen -> by its transform
+         code (0 = RGB), else by the component ids (1,2,3 = YCbCr); these flags are only cleared by get_soi *)
+      CObs "jpeg_color_space"
+           (EIte (EEq (EG (D "num_components")) (EC 1)) (EC 1)
+                 (EIte (EG (D "saw_JFIF_marker")) (EC 3)
+                       (EIte (EG (D "saw_Adobe_marker")) (EIte (EEq (EG (D "Adobe_transform")) (EC 0)) (EC 2) (EC 3)) (EC 3)))) ;;
       CSet (D "out_color_space") (EA "pf") ;; CSet (D "dct_method") (P "fastDCT") ;; CSet (D "do_fancy_upsampling") (EC 0) ;;
       CSet (D "Se") (EC 63) ;;
       (* initial_setup and master_selection branch on master->lossless, which only get_sof assigns *)
